@@ -25,3 +25,25 @@ Theorem C04_disciplined_log_every_crash_state_safe : forall dom s evs,
 Proof. exact disciplined_all_crash_states_safe. Qed.
 
 Print Assumptions C04_disciplined_log_every_crash_state_safe.
+
+(* and the check is exact for the cell model: a rejected log has an unsafe crash state (of cells; the check then
+   searches the real request log for a crash image that realises it) *)
+Theorem C04_rejected_log_has_unsafe_crash_state : forall dom s evs,
+  Crash.disciplined dom s evs = false ->
+  exists k m, ~ Crash.safe dom (Crash.apply_masked (fst (Crash.crun s [] (firstn k evs))) (snd (Crash.crun s [] (firstn k evs))) m).
+Proof. exact disciplined_false_unsafe. Qed.
+
+Print Assumptions C04_rejected_log_has_unsafe_crash_state.
+
+(* the ordering the library aims at (refcount increments, sync, mappings, sync, refcount decrements) is crash safe
+   for EVERY batch whose counts cover the mixtures of old and new mappings *)
+Theorem C04_ordered_flush_protocol_safe : forall dom s incs sets decs,
+  Inv dom s [] ->
+  (forall p, In p incs -> Crash.crefs dom s (fst p) <= snd p) ->
+  (forall h, Crash.refs_max dom (Crash.apply_all s (rc_evs incs)) (sl_evs sets) h <= Crash.get_rc (Crash.apply_all s (rc_evs incs)) h) ->
+  (forall p, In p decs -> Crash.crefs dom (Crash.apply_all (Crash.apply_all s (rc_evs incs)) (sl_evs sets)) (fst p) <= snd p) ->
+  forall k m, let st := Crash.crun s [] (firstn k (protocol incs sets decs)) in
+  Crash.safe dom (Crash.apply_masked (fst st) (snd st) m).
+Proof. exact protocol_every_crash_state_safe. Qed.
+
+Print Assumptions C04_ordered_flush_protocol_safe.
